@@ -34,7 +34,8 @@ func ParseTime(value string) (Time, error) {
 	value = strings.TrimPrefix(value, "@T")
 	for _, l := range timeLayouts {
 		if t, err = time.Parse(l, value); err == nil {
-			return Time{t, layout(l)}, nil
+			t, fl := normalizeFraction(t, layout(l))
+			return Time{t, fl}, nil
 		}
 	}
 	return Time{}, fmt.Errorf("unable to parse time '%s': %w", value, err)
@@ -197,6 +198,36 @@ func roundToLayout(l layout, d time.Duration) time.Duration {
 		return d / time.Second * time.Second
 	}
 	return d
+}
+
+// normalizeFraction gives a value that was written with fraction digits the
+// millisecond layout. time.Parse accepts a fraction after the seconds even when
+// the layout has none, which would otherwise leave a value whose text and
+// comparisons disagree ('10:00:00.5' printed as '10:00:00'). Digits beyond
+// milliseconds are dropped.
+func normalizeFraction(t time.Time, l layout) (time.Time, layout) {
+	if t.Nanosecond() != 0 {
+		switch l {
+		case secondLayout:
+			l = millisecondLayout
+		case dtSecondLayout:
+			l = dtMillisecondLayout
+		case dtSecondLayoutTZ:
+			l = dtMillisecondLayoutTZ
+		}
+	}
+	return truncateToLayout(t, l), l
+}
+
+// truncateToLayout drops the part of a second that the layout cannot show.
+func truncateToLayout(t time.Time, l layout) time.Time {
+	switch l {
+	case millisecondLayout, dtMillisecondLayout, dtMillisecondLayoutTZ:
+		return t.Truncate(time.Millisecond)
+	case secondLayout, dtSecondLayout, dtSecondLayoutTZ:
+		return t.Truncate(time.Second)
+	}
+	return t
 }
 
 func (t Time) getComponents() []int {
